@@ -57,9 +57,13 @@ func (x *Exec) callWith(s *State, cc *ssa.CallCommon, args []Val, fnv *Val, inst
 	} else {
 		fv = x.val(s, cc.Value)
 	}
-	if isLit(fv.L[0]) && fv.L[0] != "0" {
+	code := fv.L[0]
+	if k, ok := s.known[code]; ok {
+		code = k
+	}
+	if isLit(code) && code != "0" {
 		var id int
-		fmt.Sscan(fv.L[0], &id)
+		fmt.Sscan(code, &id)
 		if f, ok := x.P.fnByID[id]; ok {
 			return x.callStatic(s, f, args, fv.L[1], instr, advance, setRes)
 		}
@@ -85,9 +89,13 @@ func (x *Exec) invoke(s *State, cc *ssa.CallCommon, recv Val, args []Val, instr 
 		setRes(Val{})
 		return false
 	}
-	if isLit(recv.L[0]) && recv.L[0] != "0" {
+	dyn := recv.L[0]
+	if k, ok := s.known[dyn]; ok {
+		dyn = k
+	}
+	if isLit(dyn) && dyn != "0" {
 		var id int
-		fmt.Sscan(recv.L[0], &id)
+		fmt.Sscan(dyn, &id)
 		if t, ok := x.P.typeByID[id]; ok {
 			ms := x.P.prog.MethodSets.MethodSet(t)
 			sel := ms.Lookup(cc.Method.Pkg(), mname)
@@ -225,6 +233,9 @@ func (x *Exec) applySpec(s *State, spec *FuncSpec, evName string, vars map[strin
 	s.events = append(s.events, Event{Name: evName, Recv: recv, Args: args, Res: rs})
 	post.events = s.events
 	for _, c := range spec.Ensures {
+		if usesEvents(c.Expr) {
+			continue // statements about the callee's own call events are not visible to callers
+		}
 		s.assume(post.evalBool(c.Expr))
 	}
 	for _, m := range spec.Maintains {
@@ -286,7 +297,12 @@ func (x *Exec) pureResult(s *State, spec *FuncSpec, fv *Val, recv *Val, sig *typ
 func (x *Exec) callStatic(s *State, fn *ssa.Function, args []Val, env string, instr ssa.Value, advance bool, setRes func(Val)) bool {
 	name := fnName(fn)
 	if m, ok := builtinModels[name]; ok {
-		setRes(m(x, s, fn, args))
+		res := m(x, s, fn, args)
+		if name != "time.Now" {
+			x.callCount[name]++
+			x.bindCall(name, res)
+		}
+		setRes(res)
 		return false
 	}
 	inModule := (fn.Pkg != nil && strings.HasPrefix(fn.Pkg.Pkg.Path(), modulePath)) || (fn.Pkg == nil && strings.Contains(fn.String(), modulePath))
@@ -569,4 +585,19 @@ func (x *Exec) havocGuarded(s *State, base, muPath string) {
 	env := &Env{x: x, s: s, vars: map[string]Val{}, heap: s.heap, old: s.heap, events: s.events}
 	this := Val{Typ: types.NewPointer(nt), L: []string{base}}
 	s.assume(env.invOf(this, ""))
+}
+
+func usesEvents(e *SExpr) bool {
+	if e.Op == "call" && e.Args[0].Op == "id" {
+		switch e.Args[0].Tok {
+		case "ncalls", "ncallsOn", "callarg", "callres", "callrecv", "callpos", "nevents":
+			return true
+		}
+	}
+	for _, a := range e.Args {
+		if usesEvents(a) {
+			return true
+		}
+	}
+	return false
 }
